@@ -186,6 +186,28 @@ func l1cell(kind string, s strat, all []*domain.Endpoint, H, L, hist int, M stri
 		case 3: // endpoints that do not serve M any more used to list it and now report an empty listing
 			if L&(1<<uint(i)) == 0 {
 				reg.RegisterModels(ctx, e.URLString, with)
+				if kind == "unified" {
+					// the first listing has been unified before the empty one arrives (discovery rounds are minutes apart):
+					// otherwise both unification runs see the empty listing and there is nothing stale to judge
+					url := e.URLString
+					stack.Eventually(300*time.Millisecond, func() bool {
+						um, ok := reg.(interface {
+							GetUnifiedModels(context.Context) ([]*domain.UnifiedModel, error)
+						})
+						if !ok {
+							return true
+						}
+						ms, _ := um.GetUnifiedModels(ctx)
+						for _, m := range ms {
+							for _, se := range m.SourceEndpoints {
+								if se.EndpointURL == url {
+									return true
+								}
+							}
+						}
+						return false
+					})
+				}
 				final = nil
 				hdesc = append(hdesc, e.Name+":with-then-empty")
 			}
